@@ -23,7 +23,7 @@ import time
 
 VERIF = os.path.dirname(os.path.dirname(os.path.abspath(__file__)))
 REPO = os.environ.get('VERIF_REPO', '/repo')
-OUT = os.path.join(VERIF, 'build', 'verus')
+OUT = os.environ.get('VERIF_VERUS_OUT') or os.path.join(VERIF, 'build', 'verus')
 sys.path.insert(0, os.path.join(VERIF, 'extract'))
 import rustx  # noqa: E402
 
@@ -41,7 +41,7 @@ def parse_kv(s):
 
 def discover(prop, tier, only=None):
     units = []
-    d = os.path.join(VERIF, 'verus')
+    d = os.environ.get('VERIF_VERUS_DIR') or os.path.join(VERIF, 'verus')
     if not os.path.isdir(d):
         return units
     for fn in sorted(os.listdir(d)):
